@@ -8,3 +8,4 @@ open Genq.Codec
 #print axioms C06_roundtrip_special_model
 #print axioms C06_marshaled_object_covers_every_field
 #print axioms C06_roundtrip_needs_coherence_witness
+#print axioms C06_null_object_with_abstract_list_witness
